@@ -24,25 +24,24 @@ attribute [local instance] Classical.propDecidable
 example := C11.canonical_fc_value exR envR isExpR hAR
 example := C11.canonical_value exR envR isExpR hAR
 example := C11.general_value exR envR isExpR hAR
-example := C11.expandcanonical_value exR envR isExpR
+example := C11.expandcanonical_value exR envR isExpR hAR
 example := C11.standard_value exR envR isExpR hAR
 example := C11.timeconst_value exR envR hAR
-example := C11.N_over_D exR envR isExpR
+example := C11.N_over_D exR envR isExpR hAR
 example := C11.multiply_top_and_bottom_value exR [1, 1] envR isExpR (by norm_num [envR, Poly.eval])
 example := C11.decompose_value [Factor.rat [1, 1] [2, 1], .expf (-3), .undefF, .rat [1] [3, 1]] envR isExpR
 example := C11b.divide_top_and_bottom_value exR (.add .var (.const 1)) envR isExpRb (by norm_num [RExpr.eval, envR])
 example := C11b.multiply_top_and_bottom_src_value exR (.add .var (.const 1)) envR isExpRb (by norm_num [RExpr.eval, envR])
 example := C11b.as_N_D_monic_value exR envR isExpRb hAR
-example := C11b.expandcanonical_src_value exR envR isExpRb
-example := C11b.expand_response_value exR envR isExpRb
-example := C11b.factors_of_expression exR envR isExpRb
+example := C11b.expandcanonical_src_value exR envR isExpRb hAR
+example := C11b.expand_response_value exR envR isExpRb hAR
+example := C11b.factors_of_expression exR envR isExpRb hAR
 end real
 
 /-! ### checker-based theorems over ℚ -/
-open C11 in
-/-- `(x+1)(x+2)/((x+3)(x+4)) · exp(−3x) · U(x)`: rational zeros AND poles -/
-def exZ : RF ℚ := ⟨[2, 3, 1], [12, 7, 1], 3, 1⟩
-theorem hAZ : Poly.eval exZ.A C11.envQ.x ≠ 0 := by norm_num [exZ, C11.envQ, Poly.eval]
+/- `exZ = (x+1)(x+2)/((x+3)(x+4)) · exp(−3x) · U(x)`: rational zeros AND poles (defined beside `zpk_value` in Props/C11.lean) -/
+open Lcapy.C11 (exZ)
+theorem hAZ : Poly.eval exZ.A C11.envQ.x ≠ 0 := by norm_num [exZ, C11.exZ, C11.envQ, Poly.eval]
 theorem isExpQ : C11.IsExp C11.envQ := ⟨rfl, fun _ _ => by simp [C11.envQ]⟩
 theorem hz : rootsCheck exZ.B [(-1, 1), (-2, 1)] = true := by decide +kernel
 theorem hp : rootsCheck exZ.A [(-3, 1), (-4, 1)] = true := by decide +kernel
